@@ -13,14 +13,15 @@ Depth == IF "DEPTH" \in DOMAIN IOEnv THEN atoi(IOEnv.DEPTH) ELSE 3
 
 \* operations: write to guest cluster g (whole cluster / first block only /
 \* last block only), discard of cluster g, discard of both, flush_meta,
-\* fsync_range, shrink_caches (evicts every slice), reopen (drop + open)
+\* fsync_range, shrink_caches (evicts every slice), reopen (drop + open),
+\* check() (walks all mappings and refcounts: loads and evicts slices)
 Writes   == { [op |-> "w", g |-> g, part |-> p] : g \in {0, 1}, p \in {"full", "head"} }
            \cup { [op |-> "w", g |-> 1, part |-> "tail"], [op |-> "w", g |-> 0, part |-> "both"] }
 Discards == { [op |-> "d", g |-> g, part |-> "full"] : g \in {0, 1} } \cup { [op |-> "d", g |-> 0, part |-> "both"] }
-Ctl      == { [op |-> c, g |-> 0, part |-> "-"] : c \in {"f", "s", "k", "r"} }
+Ctl      == { [op |-> c, g |-> 0, part |-> "-"] : c \in {"f", "s", "k", "r", "c"} }
 Ops      == Writes \cup Discards \cup Ctl
 
-IsCtl(o) == o.op \in {"f", "s", "k", "r"}
+IsCtl(o) == o.op \in {"f", "s", "k", "r", "c"}
 
 \* redundancy rules: a history starts with a modifying operation; the same
 \* control operation is not repeated back to back; fsync_range and reopen
@@ -30,6 +31,7 @@ OK(h) ==
   /\ \A i \in 1 .. Len(h) - 1 :
         /\ ~(IsCtl(h[i]) /\ h[i] = h[i + 1])
         /\ ~(h[i].op = "r" /\ h[i + 1].op \in {"s", "r", "k", "f"})
+        /\ ~(h[i].op = "c" /\ h[i + 1].op \in {"s", "c"})
 
 VARIABLE h
 Init == h = << >>
@@ -51,7 +53,10 @@ Rank(o) == CHOOSE n \in 1 .. Len(OpSeq) : OpSeq[n] = o
 \* sorted tuples stand for multisets
 SortedTuples(n) == { t \in [1 .. n -> ParOps] : \A i \in 1 .. n - 1 : Rank(t[i]) <= Rank(t[i + 1]) }
 Groups == { t \in SortedTuples(ParN) : \E i \in 1 .. ParN : ~IsCtl(t[i]) \/ t[i].op = "f" }
-Pres == { << >> } \cup { <<o>> : o \in Ops \ Ctl } \cup { <<o, [op |-> "f", g |-> 0, part |-> "-"]>> : o \in Writes }
+\* prefixes: nothing, one modifying operation, a write followed by flush_meta
+\* (clean cached slices) or by shrink_caches (nothing cached)
+Pres == { << >> } \cup { <<o>> : o \in Ops \ Ctl }
+        \cup { <<o, [op |-> c, g |-> 0, part |-> "-"]>> : o \in Writes, c \in {"f", "k"} }
 \* (one expression mentioning h: TLC evaluates constant-level definitions at start-up)
 EmitParOnce == (h = << >>) => \A p \in Pres : \A t \in Groups : PrintT("@@" \o ToJson([pre |-> p, par |-> t]))
 
